@@ -1,5 +1,5 @@
 """C18: what the radar shows is the tracker's data, placed truthfully on the map."""
-import json, os, random, re, subprocess, tempfile, time
+import json, math, os, random, re, subprocess, tempfile, time
 
 import enc, procs, session
 from session import Inconclusive
@@ -409,7 +409,7 @@ def stats_expiry_session(col, binpath, rng, tag, scratch):
         sess.close()
 
 
-MAP_RECEIVERS = [(52.0, 4.0), (51.5, -0.1), (0.0, 0.0), (-40.0, 179.9), (10.0, -60.0), (60.0, 25.0), (-33.9, 151.2), (35.0, -179.8)]
+MAP_RECEIVERS = [(52.0, 4.0), (51.5, -0.1), (0.0, 0.0), (-40.0, 179.9), (10.0, -60.0), (60.0, 25.0), (-33.9, 151.2), (35.0, -179.8), (85.3, 10.0), (-85.3, -60.0)]
 
 
 def map_session(col, binpath, rng, tag, scratch):
@@ -417,6 +417,14 @@ def map_session(col, binpath, rng, tag, scratch):
     # where a projection seam or a sign slip shows
     lat, lon = MAP_RECEIVERS[int(tag.split("#")[1]) % len(MAP_RECEIVERS)]
     d = rng.choice([25.0, 30.0, 35.0])
+    if abs(lat) > 70:
+        # beyond the usual web-mercator cut-off the projection stretches fast: distances are
+        # shortened so that the picture has the same size as at 50 degrees
+        d *= math.cos(math.radians(lat)) / math.cos(math.radians(50.0))
+    idx = int(tag.split("#")[1])
+    # every third session the nearer aircraft to the east and to the west arrive at their place in
+    # three steps (tracks are drawn in these sessions): the dot belongs at the newest position
+    moving = idx % 3 == 2
     lines = []
     truth = {}
     MULT = {"N": (1.0, 2.0), "E": (1.0, 2.0), "S": (1.5, 3.0), "W": (1.5, 3.0)}
@@ -425,12 +433,20 @@ def map_session(col, binpath, rng, tag, scratch):
             addr = 0x700000 + i * 16 + j
             la, lo = enc.destination(lat, lon, brg, d * mult)
             truth[addr] = (name, mult)
+            if moving and name in ("E", "W") and j == 0:
+                step = 0.15 * d
+                for k, back in enumerate((3, 2, 1)):
+                    pla, plo = enc.destination(lat, lon, brg, d * mult - back * step)
+                    lines.append(enc.line(enc.long_frame(17, 5, addr, enc.me_airpos(11, 30000, pla, plo, k % 2 == 1))))
+                # the last report is the only one from the final place: the newest track entry is one step behind
+                lines.append(enc.line(enc.long_frame(17, 5, addr, enc.me_airpos(11, 30000, la, lo, True))))
+                continue
             lines.append(enc.line(enc.long_frame(17, 5, addr, enc.me_airpos(11, 30000, la, lo, False))))
             lines.append(enc.line(enc.long_frame(17, 5, addr, enc.me_airpos(11, 30000, la, lo, True))))
     plan = [("send", b"".join(lines)), ("mark", "feed_done"), ("sleep", 60)]
     # these aircraft never sent a velocity report, so with the heading display on (the default)
     # their dot is still the only blue thing: every other session keeps the default
-    opts = ["--disable-track", "--disable-icao", "--filter-time", "100000"] + (["--disable-heading"] if int(tag.split("#")[1]) % 2 == 0 else [])
+    opts = ([] if moving else ["--disable-track"]) + ["--disable-icao", "--filter-time", "100000"] + (["--disable-heading"] if idx % 2 == 0 else [])
     sess = session.RadarSession(binpath, plan, lat=lat, lon=lon, opts=opts, rows=60, cols=200, scratch=scratch)
     inp = {"receiver": [lat, lon], "d_km": d, "options": opts, "lines": [l.decode() for l in lines], "tag": tag}
     try:
@@ -560,7 +576,7 @@ def main(a, lcol, col, run_all, scratch, START):
     import vlib
     thorough = a.tier == "thorough"
     jobs = []
-    nd, nm, ne = (400, 160, 40) if thorough else (14, 8, 3)
+    nd, nm, ne = (400, 160, 40) if thorough else (14, 10, 3)
     for i in range(nd):
         jobs.append((f"data#{i}", lambda rng, i=i: data_session(lcol, a.bin, a.vmon, rng, f"data#{i}", scratch)))
     for i in range(nm):
